@@ -209,15 +209,17 @@ func (s *Style) ID(name string) string {
 	return name
 }
 
-var plainIdentRe = regexp.MustCompile(`^[A-Za-z_][A-Za-z0-9_]*$`)
+// letters and digits of any script are identifier characters for the scanner
+var plainIdentRe = regexp.MustCompile(`^[\p{L}_][\p{L}\p{Nd}_]*$`)
 
 // PlainIdent says whether name can be written without double quotes.
 func PlainIdent(name string) bool {
 	return plainIdentRe.MatchString(name) && !Keywords[strings.ToUpper(name)]
 }
 
-// exotic names: only expressible as delimited identifiers
-var exoticNames = []string{"select", "From", "ORDER", "my col", "a-b", "x.y", "t 0", ";semi", "(p)", "1st", "été", "and", "count", " lead", "a,b"}
+// exotic names: keywords and odd characters (only expressible as delimited
+// identifiers) and names in other scripts (which may also be written bare)
+var exoticNames = []string{"select", "From", "ORDER", "my col", "a-b", "x.y", "t 0", ";semi", "(p)", "1st", "été", "and", "count", " lead", "a,b", "élève", "über", "имя", "größe", "名前", "prénom", "naïve_2", "_x", "ñ"}
 
 // IdentX is Ident with, now and then, a name that needs double quotes.
 func IdentX(t *rapid.T, label string, pool []string) string {
